@@ -17,7 +17,7 @@ RULE = ("BFS over histories: roots = numeric, symbolic and mixed amplitude vecto
         "for all n<=N,k<=n, bit-reversal on index vectors, save/load on reachable numeric states")
 ASSUMPTIONS = ["alphabet values keep |sum|a|^2 - 1| either < 1e-9 or > 1e-2: the library's own np.isclose tolerance edge is never probed",
                "amplitudes are observed through wf[i], len(wf), wf.amplitudes, free_symbols (public surface)"]
-BOUNDS = {"quick": {"history_depth": 3, "dicke_n": 8, "flip_n": 6}, "thorough": {"history_depth": 4, "dicke_n": 10, "flip_n": 8}}
+BOUNDS = {"quick": {"history_depth": 3, "dicke_n": 8, "flip_n": 6}, "thorough": {"history_depth": 5, "dicke_n": 10, "flip_n": 8}}
 S2 = 1 / np.sqrt(2)
 SYM = {n: sympy.Symbol(n) for n in "abc"}
 
@@ -331,7 +331,7 @@ FUNCS = {"histories": step, "constructor": ctor_case, "dicke": dicke_case, "flip
 
 def run(run):
     thorough = run.tier == "thorough"
-    depth = 4 if thorough else 3
+    depth = 5 if thorough else 3
     roots = ROOTS
     seen = run.bfs("histories", roots, events_for, step, depth,
                    desc="BFS over assignment / slice-assignment / bind histories, depth %d, de-duplicated by canonical amplitude tuple" % depth)
